@@ -460,7 +460,15 @@ func c16One(r *Run, x *c16Ctx, c c16Cell, kind string) {
 			fail("C16/layout", fmt.Sprintf("timestamp %q is not the instant formatted with layout %q (%s); expected %q", text, expLayout, got, want))
 		}
 	}
-	if cut && !failed {
+	// Go's own Format writes an offset in (-60 s, 0) with a seconds zone verb as +00:00:-01, which Go's own
+	// Parse rejects (time/format.go takes the sign from offset/60); nothing logg does is involved, so
+	// for that combination only the parse-back clause is skipped (zone, layout, text and framing are checked).
+	_, expOff := expT.Zone()
+	goFormatDefect := c16LayInfos[expLayout].Zone == 2 && expOff < 0 && expOff > -60
+	if goFormatDefect {
+		r.Dist["parse-back=skipped(go-format-subminute-negative-offset)"]++
+	}
+	if cut && !failed && !goFormatDefect {
 		li, known := c16LayInfos[expLayout]
 		if !known {
 			must(fmt.Errorf("C16: layout %q has no precision entry", expLayout))
@@ -593,13 +601,13 @@ func runC16(r *Run) {
 	r.Coq("Require Import Verif.Model.Base Verif.Model.Decision Verif.Model.Mode Verif.Corr.C16.", "case", "ok")
 	r.Rule = "cells = instant (own-zone and UTC year in 0..9999, any nanosecond part; zones: UTC, fixed offsets incl. +05:45, -03:30, +14:00, -12:00 and offsets with seconds, named IANA zones when the zoneinfo is available) x 8 date/time/microseconds combinations x local-time flag x 3 UTC states (never set, SetUTCMode(true), SetUTCMode(false)) x 8 layout settings (never set + 7 custom incl. RFC3339Nano, Kitchen, millisecond digits, RFC1123Z numeric zone, StampMicro, zone with seconds) x 3 formats, each one record through Entry.WriteThru with the instant; plus argument-list forms of SetUTCMode/SetTimeFormat (no argument, several, empty strings) through Set*, New(With*) and With* children; quick: the whole factor grid once with a different instant per cell, thorough: the whole grid for every instant; direct oracle = zone and layout per the statement, text == instant.In(zone).Format(layout), framing, time.Parse gives the instant's wall-clock fields (and zone offset) to the layout's precision and the absolute instant where the layout has date, time and zone; non-trivial = non-UTC zone with a sub-second part; distinct by (instant, zone, flags, utc arguments, layout arguments, form, format)"
 	zones := c16Zones(r)
-	nInst := r.N(48, 60)
+	nInst := r.N(48, 100)
 	var insts []c16Instant
 	for i := 0; i < nInst; i++ {
 		insts = append(insts, c16GenInstant(r.R, zones, i))
 	}
 	cellNo := 0
-	coqEvery := r.N(1, 17) // thorough: every 17th grid cell becomes a Coq case, the rest is oracle-only
+	coqEvery := r.N(1, 11) // thorough: every 11th grid cell becomes a Coq case, the rest is oracle-only
 	x := &c16Ctx{snap: snap, layName: map[string]string{}}
 	x.toCoq = func() bool { return cellNo%coqEvery == 0 }
 	forms := []string{"set", "opt", "with"}
